@@ -305,6 +305,7 @@ type Exec struct {
 	locks             map[string]*lockState
 	guards            map[*Object]string
 	raceSeen          map[string]bool
+	notes             map[string]string
 	splitIndex        bool
 }
 
